@@ -6,7 +6,7 @@
    Part E  parametric facts (all programs, all sizes, all schedules): erasure of the
            specification ghosts, lock discipline.
    See the summary at the end of the file for what is parametric and what is per instance. *)
-From Coq Require Import List Bool Arith Lia PArith FMapPositive.
+From Coq Require Import List Bool Arith Lia PArith FMapPositive Permutation.
 From V Require Import Base.Sched Proto.AtomicListDefs.
 Import ListNotations.
 Import AtomicList.
@@ -25,7 +25,7 @@ Proof. decide equality; try apply Nat.eq_dec; apply ptr_eq_dec. Defined.
 Definition pc_eq_dec (a b : pc) : {a = b} + {a <> b}.
 Proof.
   decide equality; try apply Nat.eq_dec; try apply link_eq_dec; try apply ptr_eq_dec;
-    try apply kont_eq_dec; apply Bool.bool_dec.
+    try apply kont_eq_dec; try apply (list_eq_dec link_eq_dec); apply Bool.bool_dec.
 Defined.
 Definition olink_eq_dec (a b : option link) : {a = b} + {a <> b}.
 Proof. decide equality; apply link_eq_dec. Defined.
@@ -72,9 +72,9 @@ Definition h_res (r : res) p :=
   match r with RUnit => h_nat 0 p | RNone => h_nat 1 p | RNode n => h_nat 2 (h_nat n p) | RBool b => h_nat 3 (h_bool b p) end.
 Definition h_kont (c : kont) p :=
   match c with KPush b => h_nat 0 (h_nat b p) | KRem a => h_nat 1 (h_nat a p) | KDrain h => h_nat 2 (h_ptr h p) end.
-Definition h_pc (c : pc) p :=
+Definition h_pc (c : pc) (p : positive) : positive :=
   match c with
-  | PIdle => h_nat 0 p | PCrash => h_nat 1 p
+  | PIdle => h_nat 0 p | PCrash hl => h_nat 1 (h_list h_link hl p)
   | PB1 b => h_nat 2 (h_nat b p) | PB2 b k => h_nat 3 (h_nat b (h_link k p))
   | PB3 b k => h_nat 4 (h_nat b (h_link k p)) | PB4 b k => h_nat 5 (h_nat b (h_link k p))
   | PT0 c k => h_nat 6 (h_kont c (h_link k p)) | PT1 c k => h_nat 7 (h_kont c (h_link k p))
@@ -187,6 +187,7 @@ Qed.
 (* links whose lock bit thread t holds at program point p *)
 Definition held (t : nat) (p : pc) : list link :=
   match p with
+  | PCrash hl => hl
   | PB2 _ k | PB3 _ k | PB4 _ k => [k]
   | PP1 l _ | PP2 l _ => [LHead l]
   | PP3 l a _ | PP4 l a _ | PP5 l a _ => [LHead l; LRest a]
@@ -490,3 +491,547 @@ Qed.
 Theorem push_back_on_latched_list_crashes :
   exists sched, crash (final 1 [[D; B 0]] sched) = true.
 Proof. exists [0;0;0;0;0;0]. vm_compute. reflexivity. Qed.
+
+(* ------------------------------------------------------------------------------------------ *)
+(* Part E: parametric facts - all numbers of nodes and threads, all programs, all schedules     *)
+
+Lemma set_nth_length {A} n (x : A) l : length (set_nth n x l) = length l.
+Proof. revert n; induction l; intros [|n]; simpl; auto. Qed.
+
+Lemma nth_set_nth {A} n m (x d : A) l :
+  nth m (set_nth n x l) d = if Nat.eqb m n && Nat.ltb n (length l) then x else nth m l d.
+Proof.
+  revert n m; induction l as [|y l IH]; intros [|n] [|m]; simpl; auto.
+  - rewrite andb_false_r. reflexivity.
+  - rewrite IH. reflexivity.
+Qed.
+
+Lemma link_eqb_eq a b : link_eqb a b = true <-> a = b.
+Proof.
+  destruct a, b; simpl; split; intros H; try discriminate; try (apply Nat.eqb_eq in H; now subst);
+    inversion H; apply Nat.eqb_refl.
+Qed.
+Lemma link_eqb_refl a : link_eqb a a = true.
+Proof. now apply link_eqb_eq. Qed.
+Lemma link_eqb_neq a b : link_eqb a b = false <-> a <> b.
+Proof.
+  split; intros H.
+  - intros E. apply link_eqb_eq in E. congruence.
+  - destruct (link_eqb a b) eqn:E; [apply link_eqb_eq in E; contradiction|reflexivity].
+Qed.
+
+(* --- observations under the state transformers --- *)
+Definition lockview (s : st) (k : link) : option nat := link_lock s k.
+
+Lemma node_upd_node s n f m :
+  node (upd_node s n f) m = if Nat.eqb m n && Nat.ltb n (length (nodes s)) then f (node s n) else node s m.
+Proof. unfold node, upd_node, with_nodes; simpl. apply nth_set_nth. Qed.
+Lemma lst_upd_list s l f m :
+  lst (upd_list s l f) m = if Nat.eqb m l && Nat.ltb l (length (lists s)) then f (lst s l) else lst s m.
+Proof. unfold lst, upd_list, with_lists; simpl. apply nth_set_nth. Qed.
+Lemma lst_upd_node s n f m : lst (upd_node s n f) m = lst s m.
+Proof. reflexivity. Qed.
+Lemma node_upd_list s l f m : node (upd_list s l f) m = node s m.
+Proof. reflexivity. Qed.
+
+Definition nkeep (f : nrec -> nrec) : Prop := forall r, n_lock (f r) = n_lock r.
+Definition lkeep (f : lrec -> lrec) : Prop := forall r, l_lock (f r) = l_lock r.
+
+Lemma lock_upd_node s n f k : nkeep f -> link_lock (upd_node s n f) k = link_lock s k.
+Proof.
+  intros H. destruct k as [l|m]; simpl; [reflexivity|]. rewrite node_upd_node.
+  destruct (Nat.eqb m n && Nat.ltb n (length (nodes s))) eqn:E; [|reflexivity].
+  apply andb_true_iff in E. destruct E as [E _]. apply Nat.eqb_eq in E. subst. apply H.
+Qed.
+Lemma lock_upd_list s l f k : lkeep f -> link_lock (upd_list s l f) k = link_lock s k.
+Proof.
+  intros H. destruct k as [m|m]; simpl; [|reflexivity]. rewrite lst_upd_list.
+  destruct (Nat.eqb m l && Nat.ltb l (length (lists s))) eqn:E; [|reflexivity].
+  apply andb_true_iff in E. destruct E as [E _]. apply Nat.eqb_eq in E. subst. apply H.
+Qed.
+
+Lemma nkeep_self v : nkeep (nr_self v). Proof. intros r; reflexivity. Qed.
+Lemma nkeep_rest v : nkeep (nr_rest v). Proof. intros r; reflexivity. Qed.
+Lemma nkeep_used : nkeep nr_used. Proof. intros r; reflexivity. Qed.
+Lemma nkeep_freed : nkeep nr_freed. Proof. intros r; reflexivity. Qed.
+Lemma lkeep_head v : lkeep (lr_head v). Proof. intros r; reflexivity. Qed.
+Lemma lkeep_sself v : lkeep (lr_sself v). Proof. intros r; reflexivity. Qed.
+Lemma lkeep_lself v : lkeep (lr_lself v). Proof. intros r; reflexivity. Qed.
+Lemma lkeep_abs v : lkeep (lr_abs v). Proof. intros r; reflexivity. Qed.
+Lemma lkeep_alatch v : lkeep (lr_alatch v). Proof. intros r; reflexivity. Qed.
+#[local] Hint Resolve nkeep_self nkeep_rest nkeep_used nkeep_freed lkeep_head lkeep_sself lkeep_lself
+  lkeep_abs lkeep_alatch : keep.
+
+(* a transformer that leaves locks, threads and sizes alone *)
+Record quiet (s s' : st) : Prop := {
+  q_lock : forall k, link_lock s' k = link_lock s k;
+  q_thr : thr s' = thr s;
+  q_nn : length (nodes s') = length (nodes s);
+  q_nl : length (lists s') = length (lists s)
+}.
+Lemma quiet_refl s : quiet s s.
+Proof. split; auto. Qed.
+Lemma quiet_trans a b c : quiet a b -> quiet b c -> quiet a c.
+Proof.
+  intros [A1 A2 A3 A4] [B1 B2 B3 B4]. split; [intros k; rewrite B1; apply A1 | congruence ..].
+Qed.
+Lemma quiet_upd_node s n f : nkeep f -> quiet s (upd_node s n f).
+Proof.
+  intros H. split; [intros k; now apply lock_upd_node | reflexivity | | reflexivity].
+  unfold upd_node, with_nodes; simpl. apply set_nth_length.
+Qed.
+Lemma quiet_upd_list s l f : lkeep f -> quiet s (upd_list s l f).
+Proof.
+  intros H. split; [intros k; now apply lock_upd_list | reflexivity | reflexivity | ].
+  unfold upd_list, with_lists; simpl. apply set_nth_length.
+Qed.
+Lemma quiet_set_self s x v : quiet s (set_self s x v).
+Proof.
+  destruct x; simpl; [apply quiet_refl|apply quiet_upd_node|apply quiet_upd_list|apply quiet_upd_list];
+    auto with keep.
+Qed.
+Lemma quiet_set_link_val s k v : quiet s (set_link_val s k v).
+Proof. destruct k; simpl; [apply quiet_upd_list|apply quiet_upd_node]; auto with keep. Qed.
+Lemma quiet_with_uaf s b : quiet s (with_uaf s b). Proof. split; auto. Qed.
+Lemma quiet_with_crash s b : quiet s (with_crash s b). Proof. split; auto. Qed.
+Lemma quiet_with_linbad s b : quiet s (with_linbad s b). Proof. split; auto. Qed.
+Lemma quiet_with_embad s b : quiet s (with_embad s b). Proof. split; auto. Qed.
+Lemma quiet_touch_node o m s : quiet s (touch_node o m s).
+Proof.
+  unfold touch_node. destruct (n_freed (node s m)); [|apply quiet_refl].
+  destruct o as [a|]; [destruct (Nat.eqb a m)|]; try apply quiet_refl; apply quiet_with_uaf.
+Qed.
+Lemma quiet_touch_link o k s : quiet s (touch_link o k s).
+Proof. destruct k; simpl; [apply quiet_refl|apply quiet_touch_node]. Qed.
+Lemma quiet_touch_obj o x s : quiet s (touch_obj o x s).
+Proof. destruct x; simpl; try apply quiet_refl; apply quiet_touch_node. Qed.
+Lemma quiet_set_abs s l v : quiet s (set_abs s l v).
+Proof. apply quiet_upd_list; auto with keep. Qed.
+
+(* the specification functions only write ghost fields *)
+Definition ghostly (f : st -> st * res) : Prop := forall s, quiet s (fst (f s)).
+Lemma ghostly_push_back b : ghostly (spec_push_back b).
+Proof. intros s. apply quiet_set_abs. Qed.
+Lemma ghostly_push_front b : ghostly (spec_push_front b).
+Proof. intros s. unfold spec_push_front. destruct (l_alatch (lst s 0)); simpl; [apply quiet_refl|apply quiet_set_abs]. Qed.
+Lemma ghostly_pop l : ghostly (spec_pop l).
+Proof. intros s. unfold spec_pop. destruct (abs s l); simpl; [apply quiet_refl|apply quiet_set_abs]. Qed.
+Lemma map_nth_lock (ls : list lrec) g m :
+  (forall r, l_lock (g r) = l_lock r) -> l_lock (nth m (map g ls) lnil) = l_lock (nth m ls lnil).
+Proof.
+  intros H. revert m; induction ls as [|r ls IH]; intros [|m]; simpl; auto.
+Qed.
+Lemma ghostly_remove a : ghostly (spec_remove a).
+Proof.
+  intros s. unfold spec_remove.
+  destruct (existsb _ (lists s)); simpl; [|apply quiet_refl].
+  split; simpl; [ | reflexivity | reflexivity | apply map_length].
+  intros [l|n]; simpl; [|reflexivity]. unfold lst; simpl. apply map_nth_lock. reflexivity.
+Qed.
+Lemma ghostly_latch_drain t : ghostly (spec_latch_drain t).
+Proof.
+  intros s. unfold spec_latch_drain. destruct (l_alatch (lst s 0)); simpl; [apply quiet_refl|].
+  eapply quiet_trans; [eapply quiet_trans; [apply quiet_set_abs|apply quiet_set_abs]|].
+  apply quiet_upd_list; auto with keep.
+Qed.
+Lemma ghostly_unlatch : ghostly spec_unlatch.
+Proof.
+  intros s. unfold spec_unlatch. destruct (l_alatch (lst s 0)); simpl; [|apply quiet_refl].
+  apply quiet_upd_list; auto with keep.
+Qed.
+Lemma ghostly_is_latched : ghostly spec_is_latched.
+Proof. intros s. apply quiet_refl. Qed.
+#[local] Hint Resolve ghostly_push_back ghostly_push_front ghostly_pop ghostly_remove ghostly_latch_drain
+  ghostly_unlatch ghostly_is_latched : keep.
+
+(* thread transformers *)
+Lemma cur_set_thread s t th u :
+  cur (set_thread s t th) u = if Nat.eqb u t && Nat.ltb t (length (thr s)) then th else cur s u.
+Proof. unfold cur, set_thread, with_thr; simpl. apply nth_set_nth. Qed.
+Lemma len_set_thread s t th : length (thr (set_thread s t th)) = length (thr s).
+Proof. unfold set_thread, with_thr; simpl. apply set_nth_length. Qed.
+
+(* what a step may do to the observations lock words / program points / sizes *)
+Record tquiet (s s' : st) : Prop := {
+  tq_lock : forall k, link_lock s' k = link_lock s k;
+  tq_pc : forall u, tpc (cur s' u) = tpc (cur s u);
+  tq_nt : length (thr s') = length (thr s);
+  tq_nn : length (nodes s') = length (nodes s);
+  tq_nl : length (lists s') = length (lists s)
+}.
+Lemma tquiet_refl s : tquiet s s.
+Proof. split; auto. Qed.
+Lemma tquiet_trans a b c : tquiet a b -> tquiet b c -> tquiet a c.
+Proof.
+  intros [A1 A2 A3 A4 A5] [B1 B2 B3 B4 B5].
+  split; [intros k; rewrite B1; apply A1 | intros u; rewrite B2; apply A2 | congruence ..].
+Qed.
+Lemma quiet_tquiet s s' : quiet s s' -> tquiet s s'.
+Proof.
+  intros [A1 A2 A3 A4]. split; auto.
+  - intros u. unfold cur. now rewrite A2.
+  - now rewrite A2.
+Qed.
+Lemma tquiet_set_prog s t r : tquiet s (set_prog s t r).
+Proof.
+  unfold set_prog. split; try reflexivity.
+  - intros u. rewrite cur_set_thread.
+    destruct (Nat.eqb u t && Nat.ltb t (length (thr s))) eqn:E; [|reflexivity].
+    apply andb_true_iff in E. destruct E as [E _]. apply Nat.eqb_eq in E. now subst.
+  - apply len_set_thread.
+Qed.
+Lemma tquiet_lin s t f : ghostly f -> tquiet s (lin s t f).
+Proof.
+  intros G. unfold lin. specialize (G s). destruct (f s) as [s1 r]. simpl in G.
+  apply quiet_tquiet in G.
+  assert (A : tquiet s1 (set_thread s1 t {| prog := prog (cur s1 t); tpc := tpc (cur s1 t); t_lin := Some r |})).
+  { split; try reflexivity.
+    - intros u. rewrite cur_set_thread.
+      destruct (Nat.eqb u t && Nat.ltb t (length (thr s1))) eqn:E; [|reflexivity].
+      apply andb_true_iff in E. destruct E as [E _]. apply Nat.eqb_eq in E. now subst.
+    - apply len_set_thread. }
+  destruct (t_lin (cur s1 t)).
+  - eapply tquiet_trans; [exact G|]. eapply tquiet_trans; [exact A|].
+    apply quiet_tquiet. apply quiet_with_linbad.
+  - eapply tquiet_trans; eauto.
+Qed.
+
+(* s' differs from s in the program point of thread t only *)
+Record pcstep (t : nat) (p' : pc) (s s' : st) : Prop := {
+  ps_lock : forall k, link_lock s' k = link_lock s k;
+  ps_pc : forall u, tpc (cur s' u) = if Nat.eqb u t && Nat.ltb t (length (thr s)) then p' else tpc (cur s u);
+  ps_nt : length (thr s') = length (thr s);
+  ps_nn : length (nodes s') = length (nodes s);
+  ps_nl : length (lists s') = length (lists s)
+}.
+Lemma pcstep_set_pc s t p : pcstep t p s (set_pc s t p).
+Proof.
+  unfold set_pc. split; try reflexivity.
+  - intros u. rewrite cur_set_thread. destruct (Nat.eqb u t && Nat.ltb t (length (thr s))); reflexivity.
+  - apply len_set_thread.
+Qed.
+Lemma pcstep_ret s t r : pcstep t PIdle s (ret s t r).
+Proof.
+  unfold ret.
+  set (s1 := set_thread s t {| prog := prog (cur s t); tpc := PIdle; t_lin := None |}).
+  assert (A : pcstep t PIdle s s1).
+  { split; try reflexivity.
+    - intros u. unfold s1. rewrite cur_set_thread. destruct (Nat.eqb u t && Nat.ltb t (length (thr s))); reflexivity.
+    - apply len_set_thread. }
+  assert (B : pcstep t PIdle s (with_linbad s1 true)) by (destruct A; split; auto).
+  destruct (t_lin (cur s t)) as [r'|]; [destruct (res_eqb r r')|]; assumption.
+Qed.
+Lemma pcstep_tquiet_l t p a b c : tquiet a b -> pcstep t p b c -> pcstep t p a c.
+Proof.
+  intros [A1 A2 A3 A4 A5] [B1 B2 B3 B4 B5].
+  split; [intros k; rewrite B1; apply A1 | intros u; rewrite B2, A3, A2; reflexivity | congruence ..].
+Qed.
+Lemma pcstep_tquiet_r t p a b c : pcstep t p a b -> tquiet b c -> pcstep t p a c.
+Proof.
+  intros [A1 A2 A3 A4 A5] [B1 B2 B3 B4 B5].
+  split; [intros k; rewrite B1; apply A1 | intros u; rewrite B2, A2; reflexivity | congruence ..].
+Qed.
+
+(* lock operations *)
+Lemma valid_link_sizes s s' k :
+  length (nodes s') = length (nodes s) -> length (lists s') = length (lists s) ->
+  valid_link s' k = valid_link s k.
+Proof. intros A B. destruct k; simpl; congruence. Qed.
+
+Lemma lock_set_link_lock s k o k' :
+  link_lock (set_link_lock s k o) k' = if link_eqb k' k && valid_link s k then o else link_lock s k'.
+Proof.
+  destruct k as [l|n], k' as [l'|n']; simpl; try reflexivity.
+  - rewrite lst_upd_list. destruct (Nat.eqb l' l && Nat.ltb l (length (lists s))); reflexivity.
+  - rewrite node_upd_node. destruct (Nat.eqb n' n && Nat.ltb n (length (nodes s))); reflexivity.
+Qed.
+
+Record lockop (k0 : link) (o : option nat) (s s' : st) : Prop := {
+  lo_lock : forall k, link_lock s' k = if link_eqb k k0 && valid_link s k0 then o else link_lock s k;
+  lo_pc : forall u, tpc (cur s' u) = tpc (cur s u);
+  lo_nt : length (thr s') = length (thr s);
+  lo_nn : length (nodes s') = length (nodes s);
+  lo_nl : length (lists s') = length (lists s)
+}.
+Lemma lockop_set_link_lock s k o : lockop k o s (set_link_lock s k o).
+Proof.
+  split; [intros k'; apply lock_set_link_lock | destruct k; reflexivity | destruct k; reflexivity | | ];
+    destruct k; simpl; unfold upd_node, upd_list, with_nodes, with_lists; simpl;
+    rewrite ?set_nth_length; reflexivity.
+Qed.
+Lemma lockop_unlock s k v : lockop k None s (unlock s k v).
+Proof.
+  unfold unlock. pose proof (quiet_set_link_val s k v) as Q. apply quiet_tquiet in Q.
+  pose proof (lockop_set_link_lock (set_link_val s k v) k None) as [A1 A2 A3 A4 A5].
+  destruct Q as [B1 B2 B3 B4 B5].
+  split; [intros k'; rewrite A1, B1, (valid_link_sizes _ _ _ B4 B5); reflexivity
+         | intros u; rewrite A2; apply B2 | congruence ..].
+Qed.
+Lemma lockop_tquiet_l k o a b c : tquiet a b -> lockop k o b c -> lockop k o a c.
+Proof.
+  intros [A1 A2 A3 A4 A5] [B1 B2 B3 B4 B5].
+  split; [intros k'; rewrite B1, A1, (valid_link_sizes _ _ _ A4 A5); reflexivity
+         | intros u; rewrite B2; apply A2 | congruence ..].
+Qed.
+Lemma lockop_tquiet_r k o a b c : lockop k o a b -> tquiet b c -> lockop k o a c.
+Proof.
+  intros [A1 A2 A3 A4 A5] [B1 B2 B3 B4 B5].
+  split; [intros k'; rewrite B1; apply A1 | intros u; rewrite B2; apply A2 | congruence ..].
+Qed.
+Lemma acquire_lockop s t k v s1 :
+  acquire s t k = Some (v, s1) -> valid_link s k = true /\ link_lock s k = None /\ lockop k (Some t) s s1.
+Proof.
+  unfold acquire. destruct (valid_link s k) eqn:V; [|discriminate].
+  destruct (link_lock s k) eqn:E; [discriminate|]. intros H. inversion H; subst.
+  repeat split; auto; try apply lockop_set_link_lock.
+Qed.
+
+(* --- the lock discipline --- *)
+Definition LockInv (s : st) : Prop :=
+  (forall k u, link_lock s k = Some u -> u < length (thr s) /\ In k (held u (tpc (cur s u)))) /\
+  (forall u, u < length (thr s) ->
+     NoDup (held u (tpc (cur s u))) /\
+     forall k, In k (held u (tpc (cur s u))) -> valid_link s k = true /\ link_lock s k = Some u).
+
+Lemma pcstep_pc_t t p' s s' : t < length (thr s) -> pcstep t p' s s' -> tpc (cur s' t) = p'.
+Proof. intros Ht [_ P _ _ _]. rewrite P, Nat.eqb_refl. apply Nat.ltb_lt in Ht. now rewrite Ht. Qed.
+Lemma pcstep_pc_other t p' s s' u : u <> t -> pcstep t p' s s' -> tpc (cur s' u) = tpc (cur s u).
+Proof. intros Hu [_ P _ _ _]. rewrite P. apply Nat.eqb_neq in Hu. now rewrite Hu. Qed.
+
+Lemma L_keep s s' t p' :
+  LockInv s -> t < length (thr s) -> pcstep t p' s s' ->
+  Permutation (held t p') (held t (tpc (cur s t))) -> LockInv s'.
+Proof.
+  intros [Ia Ib] Ht PS Perm.
+  pose proof (pcstep_pc_t _ _ _ _ Ht PS) as Pt.
+  destruct PS as [PL PP Pnt Pnn Pnl].
+  assert (PO : forall u, u <> t -> tpc (cur s' u) = tpc (cur s u)).
+  { intros u Hu. rewrite PP. apply Nat.eqb_neq in Hu. now rewrite Hu. }
+  split.
+  - intros k u H. rewrite PL in H. destruct (Ia k u H) as [A B]. split; [congruence|].
+    destruct (Nat.eq_dec u t) as [->|Hu].
+    + rewrite Pt. eapply Permutation_in; [apply Permutation_sym; exact Perm|exact B].
+    + rewrite (PO u Hu). exact B.
+  - intros u Hu. rewrite Pnt in Hu. destruct (Ib u Hu) as [A B].
+    destruct (Nat.eq_dec u t) as [->|Hne].
+    + rewrite Pt. split.
+      * eapply Permutation_NoDup; [apply Permutation_sym; exact Perm|exact A].
+      * intros k Hk. rewrite PL, (valid_link_sizes _ _ _ Pnn Pnl). apply B.
+        eapply Permutation_in; [exact Perm|exact Hk].
+    + rewrite (PO u Hne). split; [exact A|].
+      intros k Hk. rewrite PL, (valid_link_sizes _ _ _ Pnn Pnl). now apply B.
+Qed.
+
+Lemma L_acq s b s' t p' k0 :
+  LockInv s -> t < length (thr s) -> lockop k0 (Some t) s b ->
+  valid_link s k0 = true -> link_lock s k0 = None -> pcstep t p' b s' ->
+  Permutation (held t p') (k0 :: held t (tpc (cur s t))) -> LockInv s'.
+Proof.
+  intros [Ia Ib] Ht [LL LP Lnt Lnn Lnl] V0 N0 PS Perm.
+  assert (Htb : t < length (thr b)) by congruence.
+  pose proof (pcstep_pc_t _ _ _ _ Htb PS) as Pt.
+  assert (PO : forall u, u <> t -> tpc (cur s' u) = tpc (cur s u)).
+  { intros u Hu. rewrite (pcstep_pc_other _ _ _ _ _ Hu PS). apply LP. }
+  destruct PS as [PL _ Pnt Pnn Pnl].
+  assert (LK : forall k, link_lock s' k = if link_eqb k k0 then Some t else link_lock s k).
+  { intros k. rewrite PL, LL, V0, andb_true_r. reflexivity. }
+  assert (VL : forall k, valid_link s' k = valid_link s k).
+  { intros k. rewrite (valid_link_sizes _ _ _ Pnn Pnl). apply valid_link_sizes; assumption. }
+  assert (NT : length (thr s') = length (thr s)) by congruence.
+  split.
+  - intros k u H. rewrite LK in H. rewrite NT. destruct (link_eqb k k0) eqn:E.
+    + apply link_eqb_eq in E. subst k. inversion H; subst u. split; [exact Ht|].
+      rewrite Pt. eapply Permutation_in; [apply Permutation_sym; exact Perm|left; reflexivity].
+    + destruct (Ia k u H) as [A B]. split; [exact A|].
+      destruct (Nat.eq_dec u t) as [->|Hu].
+      * rewrite Pt. eapply Permutation_in; [apply Permutation_sym; exact Perm|right; exact B].
+      * rewrite (PO u Hu). exact B.
+  - intros u Hu. rewrite NT in Hu. destruct (Ib u Hu) as [A B].
+    destruct (Nat.eq_dec u t) as [->|Hne].
+    + rewrite Pt. split.
+      * eapply Permutation_NoDup; [apply Permutation_sym; exact Perm|].
+        constructor; [|exact A]. intros Hin. destruct (B k0 Hin) as [_ C]. congruence.
+      * intros k Hk. rewrite VL, LK.
+        apply (Permutation_in _ Perm) in Hk. destruct Hk as [<-|Hk].
+        -- rewrite link_eqb_refl. auto.
+        -- destruct (B k Hk) as [C1 C2]. destruct (link_eqb k k0) eqn:E; auto.
+    + rewrite (PO u Hne). split; [exact A|].
+      intros k Hk. rewrite VL, LK. destruct (B k Hk) as [C1 C2]. split; [exact C1|].
+      destruct (link_eqb k k0) eqn:E; [|exact C2]. apply link_eqb_eq in E. congruence.
+Qed.
+
+Lemma L_rel s b s' t p' k0 :
+  LockInv s -> t < length (thr s) -> lockop k0 None s b -> pcstep t p' b s' ->
+  Permutation (held t (tpc (cur s t))) (k0 :: held t p') -> LockInv s'.
+Proof.
+  intros [Ia Ib] Ht [LL LP Lnt Lnn Lnl] PS Perm.
+  assert (Htb : t < length (thr b)) by congruence.
+  pose proof (pcstep_pc_t _ _ _ _ Htb PS) as Pt.
+  assert (PO : forall u, u <> t -> tpc (cur s' u) = tpc (cur s u)).
+  { intros u Hu. rewrite (pcstep_pc_other _ _ _ _ _ Hu PS). apply LP. }
+  destruct PS as [PL _ Pnt Pnn Pnl].
+  destruct (Ib t Ht) as [ND Bt].
+  assert (H0 : In k0 (held t (tpc (cur s t)))).
+  { eapply Permutation_in; [apply Permutation_sym; exact Perm|left; reflexivity]. }
+  destruct (Bt k0 H0) as [V0 L0].
+  assert (LK : forall k, link_lock s' k = if link_eqb k k0 then None else link_lock s k).
+  { intros k. rewrite PL, LL, V0, andb_true_r. reflexivity. }
+  assert (VL : forall k, valid_link s' k = valid_link s k).
+  { intros k. rewrite (valid_link_sizes _ _ _ Pnn Pnl). apply valid_link_sizes; assumption. }
+  assert (NT : length (thr s') = length (thr s)) by congruence.
+  assert (ND' : NoDup (k0 :: held t p')) by (eapply Permutation_NoDup; [exact Perm|exact ND]).
+  split.
+  - intros k u H. rewrite LK in H. rewrite NT. destruct (link_eqb k k0) eqn:E; [discriminate|].
+    destruct (Ia k u H) as [A B]. split; [exact A|].
+    destruct (Nat.eq_dec u t) as [->|Hu].
+    + rewrite Pt. apply (Permutation_in _ Perm) in B. destruct B as [<-|B]; [|exact B].
+      rewrite link_eqb_refl in E. discriminate.
+    + rewrite (PO u Hu). exact B.
+  - intros u Hu. rewrite NT in Hu. destruct (Ib u Hu) as [A B].
+    destruct (Nat.eq_dec u t) as [->|Hne].
+    + rewrite Pt. split; [now inversion ND'|].
+      intros k Hk. rewrite VL, LK.
+      assert (Hk' : In k (held t (tpc (cur s t)))).
+      { eapply Permutation_in; [apply Permutation_sym; exact Perm|right; exact Hk]. }
+      destruct (Bt k Hk') as [C1 C2]. split; [exact C1|].
+      destruct (link_eqb k k0) eqn:E; [|exact C2]. apply link_eqb_eq in E. subst k.
+      inversion ND'; contradiction.
+    + rewrite (PO u Hne). split; [exact A|].
+      intros k Hk. rewrite VL, LK. destruct (B k Hk) as [C1 C2]. split; [exact C1|].
+      destruct (link_eqb k k0) eqn:E; [|exact C2]. apply link_eqb_eq in E. subst k. congruence.
+Qed.
+
+Lemma LockInv_tquiet s s' : tquiet s s' -> LockInv s -> LockInv s'.
+Proof.
+  intros [QL QP Qnt Qnn Qnl] [Ia Ib]. split.
+  - intros k u H. rewrite QL in H. rewrite Qnt, QP. now apply Ia.
+  - intros u Hu. rewrite Qnt in Hu. rewrite QP. destruct (Ib u Hu) as [A B]. split; [exact A|].
+    intros k Hk. rewrite QL, (valid_link_sizes _ _ _ Qnn Qnl). now apply B.
+Qed.
+
+Ltac q1 :=
+  first
+    [ apply tquiet_lin; solve [auto with keep]
+    | apply tquiet_set_prog
+    | apply quiet_tquiet; first
+        [ apply quiet_upd_node; solve [auto with keep]
+        | apply quiet_upd_list; solve [auto with keep]
+        | apply quiet_set_self | apply quiet_set_link_val
+        | apply quiet_with_uaf | apply quiet_with_crash | apply quiet_with_linbad | apply quiet_with_embad
+        | apply quiet_touch_node | apply quiet_touch_link | apply quiet_touch_obj ] ].
+Ltac tq := repeat first [ exact (tquiet_refl _) | eapply tquiet_trans; [| q1] ].
+Ltac ps :=
+  lazymatch goal with
+  | |- pcstep _ _ _ (set_pc _ _ _) => eapply pcstep_tquiet_l; [| apply pcstep_set_pc]; tq
+  | |- pcstep _ _ _ (ret _ _ _) => eapply pcstep_tquiet_l; [| apply pcstep_ret]; tq
+  | |- pcstep _ _ _ _ => eapply pcstep_tquiet_r; [ | q1 ]; ps
+  end.
+Ltac lo :=
+  lazymatch goal with
+  | |- lockop _ _ _ (unlock _ _ _) => eapply lockop_tquiet_l; [| apply lockop_unlock]; tq
+  | |- lockop _ _ _ (set_link_lock _ _ _) => eapply lockop_tquiet_l; [| apply lockop_set_link_lock]; tq
+  | |- lockop _ _ _ _ => eapply lockop_tquiet_r; [ | q1 ]; lo
+  end.
+Ltac perm :=
+  simpl; first [ apply Permutation_refl | apply perm_swap | apply perm_skip; apply Permutation_refl
+               | apply perm_skip; apply perm_swap ].
+
+Lemma some_pair_inv {A B} (a c : A) (b d : B) : Some (a, b) = Some (c, d) -> c = a /\ d = b.
+Proof. intros H; inversion H; auto. Qed.
+Ltac inv_some :=
+  match goal with H : Some (_, _) = Some (_, _) |- _ => apply some_pair_inv in H; destruct H as [-> ->] end.
+Ltac leaf_keep I Ht Hpc := eapply L_keep; [exact I | exact Ht | ps | rewrite Hpc; perm].
+Ltac leaf_rel I Ht Hpc :=
+  eapply L_rel; [exact I | exact Ht | | first [apply pcstep_set_pc | apply pcstep_ret] | ];
+  [lo | rewrite Hpc; perm].
+Ltac leaf_acq I Ht Hpc :=
+  match goal with E : acquire ?s0 ?t ?k = Some (_, ?s1) |- _ =>
+    let V := fresh "V" in let N := fresh "N" in let LO := fresh "LO" in
+    destruct (acquire_lockop _ _ _ _ _ E) as (V & N & LO);
+    eapply (L_acq s0 s1); [exact I | exact Ht | exact LO | exact V | exact N | ps | rewrite Hpc; perm]
+  end.
+Ltac leaf I Ht Hpc := first [ solve [leaf_keep I Ht Hpc] | solve [leaf_rel I Ht Hpc] | solve [leaf_acq I Ht Hpc] ].
+Ltac split_match H :=
+  repeat match type of H with
+         | context [match ?x with _ => _ end] =>
+             lazymatch x with
+             | acquire _ _ _ => let E := fresh "E" in destruct x as [[? ?]|] eqn:E
+             | _ => destruct x eqn:?
+             end; try discriminate
+         end.
+
+Lemma LockInv_step t s s' e : LockInv s -> step t s = Some (s', e) -> LockInv s'.
+Proof.
+  intros I H. unfold step in H.
+  destruct (nth_error (thr s) t) as [th|] eqn:Eth; [|discriminate].
+  assert (Ht : t < length (thr s)) by (apply nth_error_Some; congruence).
+  assert (Ecur : cur s t = th) by (unfold cur; apply nth_error_nth; exact Eth).
+  assert (Hpc : tpc (cur s t) = tpc th) by (now rewrite Ecur).
+  destruct (tpc th) eqn:Epc.
+  all: cbv beta iota in H.
+  all: try discriminate.
+  all: try (try match goal with c : kont |- _ => destruct c end; split_match H; inv_some; leaf I Ht Hpc; fail).
+  - (* PIdle: the first access of the next operation *)
+    destruct (prog th) as [|o r] eqn:Eprog; [discriminate|].
+    set (s0 := set_prog s t r) in *.
+    assert (Q0 : tquiet s s0) by apply tquiet_set_prog.
+    assert (I0 : LockInv s0) by (eapply LockInv_tquiet; eauto).
+    assert (Ht0 : t < length (thr s0)) by (destruct Q0; congruence).
+    assert (Hpc0 : tpc (cur s0 t) = PIdle) by (destruct Q0 as [_ P _ _ _]; now rewrite P).
+    clearbody s0. unfold start, do_pr0 in H.
+    destruct o; split_match H; inv_some;
+      try (leaf I0 Ht0 Hpc0);
+      try exact I0;
+      try (eapply LockInv_tquiet; [|exact I0]; tq; fail).
+  - (* PT4: the CAS of try_lock_checking *)
+    destruct (valid_link s k && negb (is_locked s k) && ptr_eqb (link_val s k) v) eqn:C.
+    + apply andb_true_iff in C. destruct C as [C _]. apply andb_true_iff in C. destruct C as [V N].
+      assert (N' : link_lock s k = None).
+      { unfold is_locked in N. destruct (link_lock s k); [discriminate|reflexivity]. }
+      inv_some.
+      destruct c; (eapply L_acq; [exact I | exact Ht | | exact V | exact N' | apply pcstep_set_pc | ];
+                   [lo | rewrite Hpc; perm]).
+    + destruct c; split_match H; inv_some; leaf I Ht Hpc.
+  - (* PR0 *)
+    unfold do_pr0 in H. split_match H; inv_some; leaf I Ht Hpc.
+Qed.
+
+Lemma nth_prop {A} (P : A -> Prop) (l : list A) d n : P d -> (forall x, In x l -> P x) -> P (nth n l d).
+Proof. intros Hd Hl. destruct (nth_in_or_default n l d) as [H|H]; [auto|now rewrite H]. Qed.
+
+Lemma LockInv_init nn progs : LockInv (init nn progs).
+Proof.
+  assert (PC : forall u, tpc (cur (init nn progs) u) = PIdle).
+  { intros u. unfold cur, init. cbn [thr]. apply (nth_prop (fun th => tpc th = PIdle)); [reflexivity|].
+    intros x H. apply in_map_iff in H. destruct H as (p & <- & _). reflexivity. }
+  assert (LK : forall k, link_lock (init nn progs) k = None).
+  { intros [l|n]; unfold link_lock, lst, node, init; cbn [lists nodes].
+    - apply (nth_prop (fun r => l_lock r = None)); [reflexivity|].
+      intros x H. apply in_map_iff in H. destruct H as (y & <- & _). reflexivity.
+    - apply (nth_prop (fun r => n_lock r = None)); [reflexivity|].
+      intros x H. apply repeat_spec in H. now subst. }
+  split.
+  - intros k u H. rewrite LK in H. discriminate.
+  - intros u _. rewrite PC. simpl. split; [constructor|]. intros k [].
+Qed.
+
+(* (1c), for ALL numbers of nodes and threads, ALL programs, ALL schedules: the lock word of a
+   link names a thread whose program point holds that link; a link held according to a thread's
+   program point is a link of the memory and its lock word names that thread; no program point
+   holds a link twice.  Hence no link is ever held by two threads. *)
+Theorem lock_discipline nn progs sched : LockInv (fst (run step sched (init nn progs, []))).
+Proof.
+  apply (run_invariant_state st nat ev step LockInv).
+  - intros s t s' evs I H. eapply LockInv_step; eauto.
+  - apply LockInv_init.
+Qed.
+
+Corollary lock_exclusive nn progs sched :
+  let s := fst (run step sched (init nn progs, [])) in
+  forall t u k, t < length (thr s) -> u < length (thr s) ->
+    In k (held t (tpc (cur s t))) -> In k (held u (tpc (cur s u))) -> t = u.
+Proof.
+  intros s t u k Ht Hu Hkt Hku. destruct (lock_discipline nn progs sched) as [_ Ib]. fold s in Ib.
+  destruct (Ib t Ht) as [_ Bt]. destruct (Ib u Hu) as [_ Bu].
+  destruct (Bt k Hkt) as [_ A1]. destruct (Bu k Hku) as [_ A2]. congruence.
+Qed.
